@@ -75,67 +75,62 @@ Proof. induction l; simpl; intros; [lia|]. rewrite IHl. lia. Qed.
 Lemma fold_max_ub : forall l b, 0 <= b -> (forall x, In x l -> x <= b) -> fold_right Z.max 0 l <= b.
 Proof. induction l; simpl; intros b Hb H; [lia|]. apply Z.max_lub; [apply H; auto | apply IHl; auto]. Qed.
 
-Lemma last_with_snoc : forall l x, last_with (l ++ [x]) (fst x) = x.
-Proof. intros. unfold last_with. rewrite fold_left_app. simpl. rewrite Z.eqb_refl. reflexivity. Qed.
-
-(* on a chain l ++ [x]: every element starts at or after the first and ends at or before x *)
-Lemma chain_snoc_bounds : forall l x lo N, chain lo (l ++ [x]) N -> 0 <= lo ->
-  list_max (map fst (l ++ [x])) = fst x /\
-  fst x + snd x <= N /\
-  forall c, In c (l ++ [x]) -> lo <= fst c /\ 0 <= snd c /\ fst c + snd c <= fst x + snd x.
+Lemma chain_in' : forall l lo n c, chain lo l n -> In c l -> lo <= fst c /\ 0 <= snd c /\ fst c + snd c <= n.
 Proof.
-  intros l x lo N Hc Hlo.
-  assert (Hlen : (length l < length (l ++ [x]))%nat) by (rewrite app_length; simpl; lia).
-  assert (Hx : nth (length l) (l ++ [x]) (0,0) = x) by (rewrite app_nth2, Nat.sub_diag by lia; reflexivity).
-  destruct (chain_nth _ _ _ _ Hc Hlen) as [A [B C]]. rewrite Hx in *.
-  assert (Hall : forall c, In c (l ++ [x]) -> lo <= fst c /\ 0 <= snd c /\ fst c + snd c <= fst x + snd x).
-  { intros c Hin. destruct (In_nth _ _ (0,0) Hin) as [i [Hi Hn]]. rewrite <- Hn.
-    destruct (chain_nth _ _ _ _ Hc Hi) as [A' [B' C']].
-    split; [exact A'|]. split; [exact B'|].
-    destruct (Nat.eq_dec i (length l)) as [He|Hne].
-    - subst i. rewrite Hx. lia.
-    - assert (Hlt : (i < length l)%nat) by (rewrite app_length in Hi; simpl in Hi; lia).
-      pose proof (chain_order _ _ _ _ _ Hc Hlt Hlen) as Ho. rewrite Hx in Ho. lia. }
-  split; [| split; [exact C | exact Hall]].
-  unfold list_max. rewrite map_app. simpl. rewrite fold_max_app.
-  assert (fold_right Z.max 0 (map fst l) <= fst x).
-  { apply fold_max_ub; [lia|]. intros y Hin. apply in_map_iff in Hin. destruct Hin as [c [Hy Hin]]. subst y.
-    assert (Hin' : In c (l ++ [x])) by (apply in_or_app; left; exact Hin).
-    destruct (Hall c Hin') as [_ [Q1 Q2]].
-    destruct (In_nth _ _ (0,0) Hin) as [i [Hi Hn]].
-    assert (Hi' : (i < length l)%nat) by exact Hi.
-    pose proof (chain_order _ _ _ _ _ Hc Hi' Hlen) as Ho. rewrite Hx in Ho.
-    rewrite app_nth1 in Ho by exact Hi. rewrite Hn in Ho. lia. }
-  lia.
+  induction l; simpl; intros lo n c Hc Hin; [contradiction|].
+  destruct Hc as [H1 [H2 H3]]. destruct Hin as [Hin|Hin].
+  - subst c. pose proof (chain_lo_le _ _ _ H3). lia.
+  - destruct (IHl _ _ _ H3 Hin) as [A [B C]]. lia.
 Qed.
 
-(* the split of the loaded block by each event's own start is the specification slice *)
+Lemma list_min_le : forall l x, In x l -> list_min l <= x.
+Proof.
+  intros l x Hin. destruct l as [|a r]; [contradiction|]. simpl.
+  revert a x Hin. induction r as [|b r IH]; intros a x Hin; simpl in *.
+  - destruct Hin as [H|H]; [subst; lia | contradiction].
+  - destruct Hin as [H|[H|H]].
+    + subst. pose proof (IH x x (or_introl eq_refl)). lia.
+    + subst. lia.
+    + pose proof (IH a x (or_intror H)). lia.
+Qed.
+
+Lemma fold_min_nonneg : forall r a, 0 <= a -> (forall x, In x r -> 0 <= x) -> 0 <= fold_right Z.min a r.
+Proof. induction r; simpl; intros; auto. apply Z.min_glb; [apply H0; auto | apply IHr; auto]. Qed.
+
+Lemma list_min_nonneg : forall l, (forall x, In x l -> 0 <= x) -> 0 <= list_min l.
+Proof.
+  intros l H. destruct l as [|a r]; simpl; [lia|]. apply fold_min_nonneg; [apply H; left; auto | intros; apply H; right; auto].
+Qed.
+
+Lemma list_max_ge : forall l x, In x l -> x <= list_max l.
+Proof.
+  unfold list_max. induction l; simpl; intros x Hin; [contradiction|].
+  destruct Hin as [H|H]; [subst; lia | pose proof (IHl x H); lia].
+Qed.
+
+(* The split of the loaded block by each event's own start is the specification slice, for ANY
+   selection of index entries that address rows inside the dataset (no ordering needed): this is
+   what makes the loader right for datasets indexed for only some events, in any order. *)
 Lemma load_formula : forall (rws : list row) (ti : list (Z * Z)),
-  chain 0 ti (zlen rws) -> ti <> [] ->
+  (forall c, In c ti -> 0 <= fst c /\ 0 <= snd c /\ fst c + snd c <= zlen rws) ->
   let tmp_start := list_min (map fst ti) in
-  let last := last_with ti (list_max (map fst ti)) in
-  let tmp_end := fst last + snd last in
+  let tmp_end := list_max (map (fun c => fst c + snd c) ti) in
   let tmp := py_slice rws tmp_start tmp_end in
   map (fun c => py_slice tmp (fst c - tmp_start) (fst c - tmp_start + snd c)) ti =
   map (fun c => py_slice rws (fst c) (fst c + snd c)) ti.
 Proof.
-  intros rws ti Hc Hne. simpl.
-  destruct (exists_last Hne) as [l [x Hl]].
-  destruct ti as [|c0 r]; [congruence|].
-  rewrite (chain_min _ _ _ _ Hc).
-  rewrite Hl in Hc |- *.
-  destruct (chain_snoc_bounds _ _ _ _ Hc (Z.le_refl 0)) as [Hmax [Hend Hall]].
-  rewrite Hmax, last_with_snoc.
-  assert (Hc0 : In c0 (l ++ [x])) by (rewrite <- Hl; left; reflexivity).
-  assert (Hfirst : forall c, In c (l ++ [x]) -> fst c0 <= fst c).
-  { intros c Hin. rewrite <- Hl in Hin. destruct Hin as [He|Hin]; [subst; lia|].
-    rewrite <- Hl in Hc. simpl in Hc. destruct Hc as [_ [Hs Hc]].
-    destruct (In_nth _ _ (0,0) Hin) as [i [Hi Hn]]. rewrite <- Hn.
-    destruct (chain_nth _ _ _ _ Hc Hi). lia. }
-  apply map_ext_in. intros c Hin.
-  destruct (Hall c Hin) as [A [B C]]. pose proof (Hfirst c Hin).
-  destruct (Hall c0 Hc0) as [A0 _].
-  replace (fst c - fst c0 + snd c) with (fst c + snd c - fst c0) by lia.
+  intros rws ti Hb. simpl. apply map_ext_in. intros c Hin.
+  destruct (Hb c Hin) as [A [B C]].
+  assert (H1 : list_min (map fst ti) <= fst c) by (apply list_min_le; apply in_map; exact Hin).
+  assert (H2 : 0 <= list_min (map fst ti)).
+  { apply list_min_nonneg. intros x Hx. apply in_map_iff in Hx. destruct Hx as [c' [Hx Hc']]. subst x.
+    destruct (Hb c' Hc'). lia. }
+  assert (H3 : fst c + snd c <= list_max (map (fun c => fst c + snd c) ti)).
+  { apply list_max_ge. apply (in_map (fun c => fst c + snd c)). exact Hin. }
+  assert (H4 : list_max (map (fun c => fst c + snd c) ti) <= zlen rws).
+  { unfold list_max. apply fold_max_ub; [apply zlen_nonneg|]. intros x Hx. apply in_map_iff in Hx.
+    destruct Hx as [c' [Hx Hc']]. subst x. destruct (Hb c' Hc') as [_ [_ Q]]. exact Q. }
+  replace (fst c - list_min (map fst ti) + snd c) with (fst c + snd c - list_min (map fst ti)) by lia.
   apply slice_slice; lia.
 Qed.
 
@@ -221,9 +216,7 @@ Proof.
       assert (Hl : (f i < length col)%nat) by (unfold col, colOf, f; rewrite map_length; unfold zlen in H2; nia).
       destruct (chain_nth _ _ _ _ (inv_chain _ I t) Hl) as [A _]. exact A.
     - apply zlen_nonneg. }
-  assert (Hne : map (fun k => nth k col (0,0)) (map f (seq 0 (Z.to_nat m))) <> []).
-  { destruct (Z.to_nat m) eqn:Em; [lia|]. simpl. discriminate. }
-  rewrite (load_formula _ _ Hchain Hne).
+  rewrite (load_formula _ _ (fun c Hin => chain_in' _ _ _ c Hchain Hin)).
   rewrite <- Hti. rewrite !map_map. apply map_ext. intros j. reflexivity.
 Qed.
 
